@@ -5,7 +5,7 @@ import re
 
 import vlib
 
-PROPS = ['Rangers.Props.C01', 'Rangers.Props.C01B', 'Rangers.Props.C01C', 'Rangers.Props.C01D', 'Rangers.Props.C01Sites']
+PROPS = ['Rangers.Props.C01', 'Rangers.Props.C01B', 'Rangers.Props.C01C', 'Rangers.Props.C01D', 'Rangers.Props.C01E', 'Rangers.Props.C01Sites']
 DRIVERS = ['C01']
 META = dict(
     level='proof',
@@ -88,12 +88,23 @@ def correspond(ctx):
     return [c]
 
 
+def _have_hooks(ctx):
+    """hooks H10 (clock advance, Execute with injected chain index / per-tx callback) present in the tree?"""
+    try:
+        a = open(os.path.join(ctx.repo, 'src', 'core', 'verif_c01_exec.go')).read()
+        return 'VerifC01ExecuteOpts' in a and os.path.exists(os.path.join(ctx.repo, 'src', 'utility', 'verif_c01_clock.go'))
+    except Exception:
+        return False
+
+
 def _search_run(ctx, n, cases):
-    binp = os.path.join(vlib.HARNESS, 'bin', 'c01')
-    if not os.path.exists(binp):
-        binp, log = vlib.go_build(ctx, vlib.HARNESS, './cmd/c01', 'c01')
-        if not binp:
-            return None, 'harness build failed: ' + log[-1500:]
+    if _have_hooks(ctx):
+        # casting mode with a forced deadline and replicas with different local chain indexes need H10
+        binp, log = vlib.go_build(ctx, vlib.HARNESS, './cmd/c01', 'c01s', tags='verif c01hooks')
+    else:
+        binp, log = vlib.go_build(ctx, vlib.HARNESS, './cmd/c01', 'c01s')
+    if not binp:
+        return None, 'harness build failed: ' + log[-1500:]
     cwd = ctx.scratch('c01search')
     env = dict(VERIF_SEED=str(ctx.seed), VERIF_TIER=ctx.tier, VERIF_CORPUS=os.path.join(vlib.VERIF, 'corpus', ctx.pid),
                GOMEMLIMIT='8GiB')
@@ -172,7 +183,7 @@ def search(ctx, hints):
                               desc='the Go race detector reports unsynchronised access while blocks are executed concurrently',
                               replay=dict(report=r['report'], command='go build -race harness/cmd/c01; mode=search conc=12 rounds=12')))
     return dict(evaluations=res['evaluations'], distinct_nontrivial=res['distinct'], violations=viols, **extra,
-                samples=[dict(note='N-fold re-execution', n=res['n'], cases=res['cases'], kinds=res.get('kinds'), evm=res.get('evm'))])
+                samples=[dict(note='N-fold re-execution', hooks_H10=_have_hooks(ctx), n=res['n'], cases=res['cases'], kinds=res.get('kinds'), evm=res.get('evm'))])
 
 
 def replay(ctx, payload):
